@@ -602,13 +602,35 @@ fn content_prop(prop: &'static str) -> &'static str {
     }
 }
 
-/// Property blamed for a wrong Reset / a batched item that does not bring the
-/// subscriber up to date: C06 states it, but under the transaction and
-/// end-of-stream checks the same divergence is theirs.
-fn lag_prop(prop: &'static str) -> &'static str {
+/// A lag-induced Reset that does not carry the current contents. That a Reset
+/// is current "as of the moment it is delivered" is C06's statement, so the
+/// divergence is C06's. C08 only speaks about the replica at the end of the
+/// stream and C07 about states that were never published: under C08 any
+/// Reset is tolerated (checking goes on state-based), under C07 the Reset
+/// must carry a state the vector had after one of the messages this
+/// subscriber has not seen yet.
+#[allow(clippy::too_many_arguments)]
+fn stale_reset<E: El>(prop: &'static str, step: usize, name: &str, kind: Kind, got: &[Kid], contents: &[Kid], unseen: &[Msg<E>]) -> Result<(), Violation> {
     match prop {
-        "C07" | "C08" => prop,
-        _ => "C06",
+        "C08" => Ok(()),
+        "C07" => {
+            if unseen.iter().any(|m| m.post == got) {
+                Ok(())
+            } else {
+                Err(viol(
+                    "C07",
+                    step,
+                    format!("reset-to-a-state-never-published/{:?}", kind),
+                    format!("{name}: Reset carries {:?}, which is not the state after any message this subscriber had not seen (contents {:?})", got, contents),
+                ))
+            }
+        }
+        _ => Err(viol(
+            "C06",
+            step,
+            format!("reset-not-current/{:?}", kind),
+            format!("{name}: Reset carries {:?} but the vector contains {:?}", got, contents),
+        )),
     }
 }
 
@@ -972,7 +994,7 @@ impl<E: El> Rest<E> {
                 }
                 // not this property's business: go on state-based, from the
                 // last point at which this subscriber was certainly in sync
-                // (creation, a Pending answer with replica == contents, a Reset)
+                // (creation, a Pending answer with replica == contents)
                 s.lenient = true;
                 st.hit("subscriber_switched_to_state_based_checking");
             }
@@ -1021,13 +1043,10 @@ impl<E: El> Rest<E> {
                     if batch.len() == 1 && matches!(batch[0], VectorDiff::Reset { .. }) {
                         let VectorDiff::Reset { values } = &batch[0] else { unreachable!() };
                         let got = kids_im(values);
-                        if &got != contents {
-                            return Err(viol(
-                                lag_prop(prop),
-                                step,
-                                format!("reset-not-current/{:?}", s.kind),
-                                format!("{name}: Reset carries {:?} but the vector contains {:?}", got, contents),
-                            ));
+                        let current = &got == contents;
+                        if !current {
+                            stale_reset(prop, step, &name, s.kind, &got, contents, &msgs[s.sync_seq.min(total)..total])?;
+                            st.hit("stale_reset_tolerated_under_this_property");
                         }
                         // conservative: everything broadcast since the last point at
                         // which this subscriber was known to be in sync
@@ -1039,18 +1058,17 @@ impl<E: El> Rest<E> {
                                 format!("{name}: received Reset although at most {} message(s) can be pending, capacity {cap}", total - s.sync_seq),
                             ));
                         }
+                        // (a Reset is no certain sync point: an implementation may
+                        // still hold older diffs back, so `sync_seq` stays)
                         s.replica = values.iter().cloned().collect();
-                        s.sync_seq = total;
                         st.mark("reset_delivered");
                         return Ok(Polled::Item);
                     }
                     if s.sync_seq >= total {
-                        return Err(viol(
-                            prop,
-                            step,
-                            format!("unexpected-item/{:?}", s.kind),
-                            format!("{name}: received {:?} although it was in sync and nothing was broadcast since", batch),
-                        ));
+                        // an item although nothing was broadcast since the last
+                        // certain sync point: only C05 forbids it (exact mode);
+                        // here its effect on the replica is what counts
+                        st.hit("state_based_item_without_broadcast");
                     }
                     for d in &batch {
                         if let Err(e) = apply_checked(d, &mut s.replica) {
@@ -1144,16 +1162,19 @@ impl<E: El> Rest<E> {
                     let VectorDiff::Reset { values } = &batch[0] else { unreachable!() };
                     let got = kids_im(values);
                     if &got != contents {
-                        return Err(viol(
-                            lag_prop(prop),
-                            step,
-                            format!("reset-not-current/{:?}", s.kind),
-                            format!("{name}: Reset carries {:?} but the vector contains {:?}", got, contents),
-                        ));
+                        // C06 states that a Reset is current; under the other
+                        // properties go on state-based from here
+                        stale_reset(prop, step, &name, s.kind, &got, contents, &msgs[s.next_seq..total])?;
+                        st.hit("stale_reset_tolerated_under_this_property");
+                        s.replica = values.iter().cloned().collect();
+                        s.lenient = true;
+                        s.sync_seq = s.next_seq;
+                        s.mid = 0;
+                        st.mark("reset_delivered");
+                        return Ok(Polled::Item);
                     }
                     s.replica = values.iter().cloned().collect();
                     s.next_seq = total;
-                    s.sync_seq = total;
                     s.mid = 0;
                     st.mark("reset_delivered");
                     if !alive {
@@ -1166,7 +1187,7 @@ impl<E: El> Rest<E> {
                 }
                 if is_reset {
                     return Err(viol(
-                        lag_prop(prop),
+                        "C06",
                         step,
                         format!("reset-without-lag/{:?}", s.kind),
                         format!("{name}: received Reset with only {pending_msgs} pending message(s), capacity {cap}"),
@@ -2211,7 +2232,7 @@ fn run_all<E: El>(cli: &ev::Cli) -> i32 {
     let mut bm = None;
     let mut bounds = Vec::new();
     for p in plans(&cli.prop, &cli.tier) {
-        bounds.push(json!({"sweep": p.name, "depth": p.depth, "configurations": p.cfgs.len()}));
+        bounds.push(json!({"sweep": p.name, "depth": explore::depth_bound(p.depth), "configurations": p.cfgs.len()}));
         let sw = Sweep { name: p.name.to_string(), h: &h, cfgs: p.cfgs, depth: p.depth };
         explore::explore(&sw, &opts, &mut acc, &mut bm);
         if !acc.violations.is_empty() || acc.cap_hit {
